@@ -12,13 +12,13 @@ from . import c01
 
 LEVEL = 'other'
 TECHNIQUE = ('static: one-factory who-may-raise rule with a reviewed inventory of foreign raises on the parse/compile path, '
-             'sentinel agreement between the character-level scanners and their consumers (interpreted failure tests, '
-             'progress-before-success path rule), guard-before-index rule on the line caches of all cursor classes, '
+             'exhaustive finite-domain interpretation of the character-level scanners and their consumers (protocol: -1 or a '
+             'strictly later offset, no exception, value = conversion of the consumed text), guard-before-index rule on the line caches of all cursor classes, '
              'check-before-use ordering in Grammar.initialize, loop-progress rules')
 LEVEL_TEXT = ('Decides from the source: every FailedParse raised by the engine is built by the one factory that binds cursor and '
               'rule stack; every explicit raise of a non-TatSu exception in the engine/compile modules is in a reviewed table '
-              '(API misuse only); each scanner returns its failure sentinel unless it advanced, and each consumer tests exactly '
-              'that sentinel before slicing/converting; every index into a line cache is dominated by an emptiness guard in all '
+              '(API misuse only); each scanner returns -1 or a strictly later offset and each consumer converts exactly the text it consumed, '
+              'without raising, for every string over a small alphabet (exhaustive up to length 3, thorough 4); every index into a line cache is dominated by an emptiness guard in all '
               'cursor classes; unknown rules are reported before any analysis dereferences rule names; repetition and skip-to '
               'loops make progress. Implicit exceptions in general, and agreement of line/column with the position, are not decided.')
 LEVEL_NOTE = 'Trusted: the exception hierarchy of tatsu/exceptions.py; int()/float() raise ValueError on an empty string.'
